@@ -188,6 +188,66 @@ class Inliner:
                     out.add(t["fn"]["def"])
         return out
 
+    # -------- generic parameters of the callee -> type arguments of the call
+    def _mapping(self, callee_def, targs):
+        names = (self.fns.get(callee_def) or {}).get("generics") or []
+        if not targs or len(names) != len(targs):
+            return {}
+        types = self.d["types"]
+        m = {}
+        for n, t in zip(names, targs):
+            if not (types[t]["k"] == "param" and types[t]["s"] == n):
+                m[n] = t
+        return m
+
+    def _subst_ty(self, tid, m, memo):
+        if not m or not isinstance(tid, int):
+            return tid
+        if tid in memo:
+            return memo[tid]
+        types = self.d["types"]
+        t = types[tid]
+        if t["k"] == "param":
+            r = m.get(t["s"], tid)
+            memo[tid] = r
+            return r
+        memo[tid] = tid          # cycle guard
+        args = [self._subst_ty(a, m, memo) for a in t.get("args", [])]
+        hid = self._subst_ty(t["hidden"], m, memo) if t.get("hidden") is not None else None
+        if args == list(t.get("args", [])) and hid == t.get("hidden"):
+            return tid
+        import re
+        sname = t["s"]
+        for n, tgt in m.items():
+            sname = re.sub(r"(?<![A-Za-z0-9_])%s(?![A-Za-z0-9_])" % re.escape(n), types[tgt]["s"].replace("\\", "\\\\"), sname)
+        nt = dict(t)
+        nt["s"] = sname
+        if "args" in t:
+            nt["args"] = args
+        if hid is not None:
+            nt["hidden"] = hid
+        types.append(nt)
+        memo[tid] = len(types) - 1
+        return memo[tid]
+
+    def _subst_in(self, x, m, memo):
+        """Substitutes type ids in a copied MIR JSON fragment (in place)."""
+        if not m:
+            return
+        if isinstance(x, dict):
+            for k, v in list(x.items()):
+                if k in ("ty", "discr_ty", "impl_self") and isinstance(v, int):
+                    x[k] = self._subst_ty(v, m, memo)
+                elif k == "targs" and isinstance(v, list):
+                    x[k] = [self._subst_ty(a, m, memo) for a in v]
+                elif k in ("span", "fn_span", "l", "vidx"):
+                    continue
+                else:
+                    self._subst_in(v, m, memo)
+        elif isinstance(x, list):
+            for v in x:
+                self._subst_in(v, m, memo)
+
     # -------- helpers on a raw body
     @staticmethod
     def _defs_of(body, local):
@@ -228,7 +288,7 @@ class Inliner:
             return self._chase_future(body, x["args"][0], depth + 1)
         return blk
 
-    def _copy_nested(self, callee_def, caller, dmap):
+    def _copy_nested(self, callee_def, caller, dmap, tmap=None):
         """Per-instance copies of the closures / coroutines nested in the callee (re-rooted to the caller)."""
         new_bodies = []
         fam = [m for m in self._family(callee_def) if m != callee_def]
@@ -250,12 +310,23 @@ class Inliner:
             for blk in nb["blocks"]:
                 blk["stmts"] = [r_stmt(st, ident, None, dmap) for st in blk["stmts"]]
                 blk["term"] = r_term(blk["term"], ident, ident, None, dmap)
+            if tmap:
+                memo = {}
+                for ld in nb["locals"]:
+                    ld["ty"] = self._subst_ty(ld["ty"], tmap, memo)
+                for blk in nb["blocks"]:
+                    self._subst_in(blk["stmts"], tmap, memo)
+                    self._subst_in(blk["term"], tmap, memo)
+                if nb.get("layout"):
+                    for sv in nb["layout"]["saved"]:
+                        sv["ty"] = self._subst_ty(sv["ty"], tmap, memo)
+                nb["tmap"] = dict(tmap)
             new_bodies.append(nb)
             self.raw[nb["def"]] = nb
             self.children.setdefault(nb["parent"], []).append(nb["def"])
         return new_bodies
 
-    def _splice(self, caller, callee, up, ctx_local):
+    def _splice(self, caller, callee, up, ctx_local, tmap=None):
         """Appends a renumbered copy of callee's locals/blocks to caller. Returns (local map fn, block map fn, dmap, new bodies)."""
         lbase = len(caller["locals"])
         bbase = len(caller["blocks"])
@@ -267,15 +338,22 @@ class Inliner:
 
         def bm(b):
             return bbase + b
+        memo = {}
         for i, ld in enumerate(callee["locals"]):
             nd = dict(ld)
             nd["inl"] = callee["def"]
+            nd["ty"] = self._subst_ty(nd["ty"], tmap, memo)
             caller["locals"].append(nd)
         dmap = {}
-        new_bodies = self._copy_nested(callee["def"], caller, dmap)
+        new_bodies = self._copy_nested(callee["def"], caller, dmap, tmap)
         for blk in callee["blocks"]:
-            caller["blocks"].append({"cleanup": blk["cleanup"], "stmts": [r_stmt(st, lm, up, dmap) for st in blk["stmts"]],
-                                     "term": r_term(blk["term"], lm, bm, up, dmap)})
+            nb_ = {"cleanup": blk["cleanup"], "stmts": [r_stmt(st, lm, up, dmap) for st in blk["stmts"]],
+                   "term": r_term(blk["term"], lm, bm, up, dmap)}
+            if tmap:
+                nb_ = copy.deepcopy(nb_)
+                self._subst_in(nb_["stmts"], tmap, memo)
+                self._subst_in(nb_["term"], tmap, memo)
+            caller["blocks"].append(nb_)
         if callee.get("selects"):
             caller.setdefault("selects", [])
             caller["selects"] = list(caller["selects"]) + list(callee["selects"])
@@ -285,7 +363,8 @@ class Inliner:
         blk = caller["blocks"][k]
         t = blk["term"]
         n0 = len(callee["blocks"])
-        lm, bm, lbase, bbase, newb = self._splice(caller, callee, None, None)
+        tmap = self._mapping(callee["def"], (t.get("fn") or {}).get("targs"))
+        lm, bm, lbase, bbase, newb = self._splice(caller, callee, None, None, tmap)
         span = t["span"]
         for i, a in enumerate(t["args"]):
             blk["stmts"].append({"k": "assign", "place": {"l": lbase + 1 + i, "p": []}, "rv": {"use": a}, "span": span})
